@@ -105,6 +105,11 @@ def enumerated(tier):
     for kind in LOGGER_KINDS:
       yield {'k': 'shape', 'uid': 0, 'kind': kind, 'shape': shape, 'cli': True}
     yield {'k': 'test', 'shape': shape, 'cli': True}
+  for shape in MSG_SHAPES:
+    for kind in ('record', 'phase', 'framework'):
+      yield {'k': 'shape', 'uid': 0, 'kind': kind, 'shape': shape, 'cli': 'station',
+             'mac': 1}
+    yield {'k': 'test', 'shape': shape, 'cli': 'station'}
   for action in ('end_a', 'start_c', 'log_a', 'end_a_end_c'):
     for op in ('log', 'close', 'start'):
       for idx in range(60):
@@ -361,6 +366,9 @@ class cli_logging:
         # notes when each message was *created*
         def emit(self, record):
           try:
+            # formats the record as a station's file handler would (this sets
+            # record.message from the unredacted msg / args)
+            self.format(record)
             m = re.search(r'MSG\d{6}', record.getMessage())
           except Exception:  # pylint: disable=broad-except
             m = None
@@ -369,8 +377,12 @@ class cli_logging:
             time.sleep(0.012)
 
       self.slow = SlowStationHandler(level=logging.DEBUG)
+      self.slow.setFormatter(logging.Formatter('%(asctime)s %(name)s %(message)s'))
       lg = logging.getLogger('openhtf')
-      lg.handlers = [self.slow, self.h] + list(lg.handlers)
+      # 'station': only the station's own handler (a formatter, no MAC filter)
+      # sits ahead of the record handlers, no console handler
+      ahead = [self.slow] if self.on == 'station' else [self.slow, self.h]
+      lg.handlers = ahead + list(lg.handlers)
     return self
 
   def __exit__(self, *exc):
